@@ -3,7 +3,7 @@
    hypothesis `disjoint (locs r) (locs a)` is MEASURED per (operation, parameter class) on pyttb by
    tools/props/c05.py (np.shares_memory + cross-writes), not proved for pyttb's code. *)
 From Coq Require Import List Arith Bool.
-From PV Require Import Model.C05Store Model.C05View.
+From PV Require Import Model.C05Store Model.C05View Model.C05View2 Model.C05Frame.
 Import ListNotations.
 
 Section C05.
@@ -272,3 +272,202 @@ Example C05_rows_example :
   row_check (mkRow KNoCopy true false true true false) = false /\
   sim_visible true = false /\ sim_visible false = true.
 Proof. repeat split; reflexivity. Qed.
+
+(* ================================================================================================================
+   wave 4: in-place writes THROUGH VIEWS (Model/C05Frame.v) and completeness of the table checker
+   ================================================================================================================ *)
+Section C05_views.
+Context {V : Type}.
+
+(* a write history through the window v (buffer abuf v, addresses cells v) changes no cell outside {abuf v} x cells v *)
+Theorem C05_view_footprint : forall (s : @store V) (v : arr) (h : list (@wr V)),
+  (forall w, In w h -> wloc w = abuf v /\ In (wpos w) (cells v)) ->
+  forall l k, (l <> abuf v \/ ~ In k (cells v)) -> nth_error (run s h l) k = nth_error (s l) k.
+Proof. exact view_footprint. Qed.
+
+(* frame theorem for views: windows that are separated - different buffers, or the SAME buffer without a common cell
+   (two rows, two disjoint slices of one array) - do not see each other's writes, whatever the history *)
+Theorem C05_view_frame : forall (s : @store V) (v a : arr) (h : list (@wr V)),
+  (abuf v <> abuf a \/ forall k, In k (cells v) -> ~ In k (cells a)) ->
+  (forall w, In w h -> wloc w = abuf v /\ In (wpos w) (cells v)) ->
+  read (run s h) a = read s a.
+Proof. exact view_frame. Qed.
+
+Theorem C05_view_frame_sym : forall (s : @store V) (v a : arr) (h : list (@wr V)),
+  (abuf v <> abuf a \/ forall k, In k (cells v) -> ~ In k (cells a)) ->
+  (forall w, In w h -> wloc w = abuf a /\ In (wpos w) (cells a)) ->
+  read (run s h) v = read s v.
+Proof. exact view_frame_sym. Qed.
+
+(* a result in a buffer allocated by the call, and every window later cut from it, can be written without any
+   pre-existing array noticing *)
+Theorem C05_fresh_views_frame : forall (h h' : @heap V) (r v a : arr) (ws : list (@wr V)),
+  fresh_res h h' r -> wf_arr h a -> abuf v = abuf r ->
+  (forall w, In w ws -> wloc w = abuf v /\ In (wpos w) (cells v)) ->
+  read (run (hst h') ws) a = read (hst h') a.
+Proof. exact fresh_views_frame. Qed.
+
+(* the converse (why the harness' sentinel writes detect sharing): windows with a common in-range cell DO see a write of a
+   new value to that cell; in particular every write through a view is seen through the base array *)
+Theorem C05_view_write_visible : forall (s : @store V) (v a : arr) k x,
+  abuf v = abuf a -> In k (cells v) -> In k (cells a) -> k < length (s (abuf v)) -> nth_error (s (abuf v)) k <> Some x ->
+  read (write s (abuf v) k x) a <> read s a.
+Proof. exact view_write_visible. Qed.
+
+Theorem C05_view_write_visible_in_base : forall (s : @store V) (v : arr) k x,
+  In k (cells v) -> k < length (s (abuf v)) -> nth_error (s (abuf v)) k <> Some x ->
+  read (write s (abuf v) k x) (base_arr (abuf v) (length (s (abuf v)))) <> read s (base_arr (abuf v) (length (s (abuf v)))).
+Proof. exact view_write_visible_in_base. Qed.
+End C05_views.
+Print Assumptions C05_view_footprint.
+Print Assumptions C05_view_frame.
+Print Assumptions C05_view_frame_sym.
+Print Assumptions C05_fresh_views_frame.
+Print Assumptions C05_view_write_visible.
+Print Assumptions C05_view_write_visible_in_base.
+
+(* a single-mode selection (integer index i on mode k: a row, a column, a slab) shows only cells of its parent ... *)
+Theorem C05_int_selection_subwin : forall a k i, i < nth k (ashape a) 0 -> length (astr a) = length (ashape a) ->
+  abuf (v_int a k i) = abuf a /\ incl (cells (v_int a k i)) (cells a).
+Proof. exact int_selection_subwin. Qed.
+Print Assumptions C05_int_selection_subwin.
+
+(* ... so it inherits every separation of its parent: the frame theorem for an array extends to all its selections *)
+Theorem C05_int_selection_separated : forall a b k i,
+  (abuf a <> abuf b \/ forall c, In c (cells a) -> ~ In c (cells b)) ->
+  i < nth k (ashape a) 0 -> length (astr a) = length (ashape a) ->
+  (abuf (v_int a k i) <> abuf b \/ forall c, In c (cells (v_int a k i)) -> ~ In c (cells b)).
+Proof. exact int_selection_separated. Qed.
+Print Assumptions C05_int_selection_separated.
+
+(* the executable separation test decides the hypothesis of C05_view_frame *)
+Theorem C05_separatedb_spec : forall v a,
+  separatedb v a = true <-> (abuf v <> abuf a \/ forall k, In k (cells v) -> ~ In k (cells a)).
+Proof. exact separatedb_spec. Qed.
+Print Assumptions C05_separatedb_spec.
+
+(* the table checker is COMPLETE as well as sound: a row passes exactly when it has the bits the property demands *)
+Theorem C05_row_check_iff : forall r, row_check r = true <->
+  (r_unchanged r = true /\
+   (r_kind r <> KNoCopy -> r_disjoint r = true /\ r_vis_result r = false /\ r_vis_operand r = false) /\
+   (r_kind r = KNoCopy -> r_extra_ok r = true)).
+Proof. exact row_check_iff. Qed.
+Print Assumptions C05_row_check_iff.
+
+(* non-vacuity: the two rows of the 2x3 matrix exF live in ONE buffer and are separated at cell level (the buffer-level
+   frame theorem says nothing here); a write through row 0 is invisible through row 1 but visible through exF and its
+   transposed window exT *)
+Example C05_view_frame_example :
+  abuf exRow0 = abuf exRow1 /\ cells exRow0 = [0; 2; 4] /\ cells exRow1 = [1; 3; 5] /\
+  separatedb exRow0 exRow1 = true /\ separatedb exRow0 exF = false /\ separatedb exRow0 exT = false /\
+  read (run (hst (h0 1)) [(0, 2, 77); (0, 4, 78)]) exRow1 = read (hst (h0 1)) exRow1 /\
+  read (run (hst (h0 1)) [(0, 2, 77); (0, 4, 78)]) exRow0 = [Some 0; Some 77; Some 78] /\
+  read (run (hst (h0 1)) [(0, 2, 77)]) exF <> read (hst (h0 1)) exF /\
+  read (run (hst (h0 1)) [(0, 2, 77)]) exT <> read (hst (h0 1)) exT.
+Proof. vm_compute. repeat split; try reflexivity; discriminate. Qed.
+
+(* ================================================================================================================
+   wave 4: more transliterated return paths (Model/C05View2.v); verdicts for all heaps / arrays / parameters
+   ================================================================================================================ *)
+Section C05_view2.
+Context {V : Type}.
+
+(* tenmat.to_tensor(copy=True): never a window onto the tenmat's data, whatever layout / permutation *)
+Theorem C05_tenmat_to_tensor_copy_verdict : forall (h : @heap V) D pshape inv tshape multi, wf_arr h D ->
+  aliases [D] [snd (tenmat_to_tensor h D pshape inv tshape multi true)] = false.
+Proof. exact tenmat_to_tensor_copy_verdict. Qed.
+
+(* tenmat.to_tensor(copy=False): a window onto the tenmat's own buffer or a new buffer - never a third existing one;
+   and for F-contiguous data whose un-permutation keeps the F layout it IS the tenmat's buffer (documented sharing) *)
+Theorem C05_tenmat_to_tensor_nocopy_aof : forall (h : @heap V) D pshape inv tshape multi,
+  alias_or_fresh h D (tenmat_to_tensor h D pshape inv tshape multi false).
+Proof. exact tenmat_to_tensor_nocopy_aof. Qed.
+
+Theorem C05_tenmat_to_tensor_nocopy_shared : forall (h : @heap V) D pshape inv tshape multi, wf_arr h D ->
+  is_fcontig D = true ->
+  (multi = true -> is_fcontig (v_transpose (mkArr (abuf D) (aoff D) pshape (fstrides pshape)) inv) = true) ->
+  list_eqb pshape (ashape D) = false ->
+  aliases [D] [snd (tenmat_to_tensor h D pshape inv tshape multi false)] = true.
+Proof. exact tenmat_to_tensor_nocopy_shared. Qed.
+
+Theorem C05_tenmat_ctranspose_verdict : forall (h : @heap V) D, wf_arr h D -> aliases [D] [snd (tenmat_ctranspose h D)] = false.
+Proof. exact tenmat_ctranspose_verdict. Qed.
+
+Theorem C05_tenmat_double_verdict : forall (h : @heap V) D, wf_arr h D -> aliases [D] [snd (tenmat_double h D)] = false.
+Proof. exact tenmat_double_verdict. Qed.
+
+Theorem C05_ttensor_copy_verdict : forall (h : @heap V) core fms, (forall a, In a (core :: fms) -> wf_arr h a) ->
+  aliases (core :: fms) (snd (ttensor_copy h core fms)) = false.
+Proof. exact ttensor_copy_verdict. Qed.
+
+(* ttensor(copy=False): the core is the caller's; the factor matrices are the caller's exactly when ALL are F-contiguous *)
+Theorem C05_ttensor_init_nocopy_verdict : forall (h : @heap V) core fms, (forall a, In a (core :: fms) -> wf_arr h a) -> fms <> [] ->
+  aliases [core] [hd core (snd (ttensor_init h core fms false))] = true /\
+  aliases fms (tl (snd (ttensor_init h core fms false))) = forallb is_fcontig fms.
+Proof. exact ttensor_init_nocopy_verdict. Qed.
+
+Theorem C05_sptenmat_copy_verdict : forall (h : @heap V) subs vals, wf_arr h subs -> wf_arr h vals ->
+  aliases [subs; vals] (snd (sptenmat_copy h subs vals)) = false.
+Proof. exact sptenmat_copy_verdict. Qed.
+
+Theorem C05_sptenmat_init_nocopy_verdict : forall (h : @heap V) subs vals,
+  aliases [subs; vals] (snd (sptenmat_init h subs vals false)) = true.
+Proof. exact sptenmat_init_nocopy_verdict. Qed.
+End C05_view2.
+Print Assumptions C05_tenmat_to_tensor_copy_verdict.
+Print Assumptions C05_tenmat_to_tensor_nocopy_aof.
+Print Assumptions C05_tenmat_to_tensor_nocopy_shared.
+Print Assumptions C05_tenmat_ctranspose_verdict.
+Print Assumptions C05_tenmat_double_verdict.
+Print Assumptions C05_ttensor_copy_verdict.
+Print Assumptions C05_ttensor_init_nocopy_verdict.
+Print Assumptions C05_sptenmat_copy_verdict.
+Print Assumptions C05_sptenmat_init_nocopy_verdict.
+
+(* non-vacuity: a 2x3 F-ordered tenmat of a (2,3) tensor with rows = mode 0: copy=False unwraps to a window onto the same buffer,
+   copy=True does not; with rows = mode 1 (data 3x2, un-permutation [1;0]) even copy=False must re-lay-out: no sharing *)
+Example C05_view2_examples :
+  aliases [exF] [snd (tenmat_to_tensor (h0 1) exF [2; 3] [0; 1] [2; 3] true false)] = true /\
+  aliases [exF] [snd (tenmat_to_tensor (h0 1) exF [2; 3] [0; 1] [2; 3] true true)] = false /\
+  aliases [mkArr 0 0 [3; 2] [1; 3]] [snd (tenmat_to_tensor (h0 1) (mkArr 0 0 [3; 2] [1; 3]) [3; 2] [1; 0] [2; 3] true false)] = false /\
+  aliases [exF] [snd (tenmat_ctranspose (h0 1) exF)] = false /\
+  aliases [exF; exS] (tl (snd (ttensor_init (h0 2) exF [exF; exS] false))) = false /\
+  aliases [exF; exF] (tl (snd (ttensor_init (h0 2) exF [exF; exF] false))) = true.
+Proof. vm_compute. repeat split; reflexivity. Qed.
+
+(* ================================================================================================================
+   wave 4 (continued): strided slices, objects made of windows
+   ================================================================================================================ *)
+(* a strided slice (start, count, step) of mode k - "every other row", a sub-block - shows only cells of its parent and
+   inherits its separations *)
+Theorem C05_slice_selection_subwin : forall a k st cnt step,
+  (forall j, j < cnt -> st + j * step < nth k (ashape a) 0) -> length (astr a) = length (ashape a) -> k < length (ashape a) ->
+  abuf (v_slice1 a k (st, cnt, step)) = abuf a /\ incl (cells (v_slice1 a k (st, cnt, step))) (cells a).
+Proof. exact slice_selection_subwin. Qed.
+Print Assumptions C05_slice_selection_subwin.
+
+Theorem C05_slice_selection_separated : forall a b k st cnt step,
+  (abuf a <> abuf b \/ forall c, In c (cells a) -> ~ In c (cells b)) ->
+  (forall j, j < cnt -> st + j * step < nth k (ashape a) 0) -> length (astr a) = length (ashape a) -> k < length (ashape a) ->
+  (abuf (v_slice1 a k (st, cnt, step)) <> abuf b \/ forall c, In c (cells (v_slice1 a k (st, cnt, step))) -> ~ In c (cells b)).
+Proof. exact slice_selection_separated. Qed.
+Print Assumptions C05_slice_selection_separated.
+
+(* objects made of windows (ktensor on views of the caller's arrays, tensor on a window): any history whose writes all go
+   through windows of r, each separated from every window of o, leaves everything o shows unchanged *)
+Theorem C05_vobj_frame : forall {V : Type} (s : @store V) (r o : list arr) (h : list (@wr V)),
+  (forall v a, In v r -> In a o -> (abuf v <> abuf a \/ forall c, In c (cells v) -> ~ In c (cells a))) ->
+  (forall w, In w h -> exists v, In v r /\ wloc w = abuf v /\ In (wpos w) (cells v)) ->
+  map (read (run s h)) o = map (read s) o.
+Proof. exact @vobj_frame. Qed.
+Print Assumptions C05_vobj_frame.
+
+(* non-vacuity: a 4x2 F-ordered matrix in buffer 0; its even rows and its odd rows (the harness' "strided" operand layout)
+   are two windows onto one buffer without a common cell; writing all of the even-row window leaves the odd-row window alone *)
+Example C05_slice_example :
+  let m := mkArr 0 0 [4; 2] [1; 4] in
+  let ev := v_slice1 m 0 (0, 2, 2) in let od := v_slice1 m 0 (1, 2, 2) in
+  cells ev = [0; 4; 2; 6] /\ cells od = [1; 5; 3; 7] /\ separatedb ev od = true /\ separatedb ev m = false /\
+  read (run (hst (h0 1)) [(0, 0, 70); (0, 4, 71); (0, 2, 72); (0, 6, 73)]) od = read (hst (h0 1)) od /\
+  read (run (hst (h0 1)) [(0, 0, 70); (0, 4, 71); (0, 2, 72); (0, 6, 73)]) ev = [Some 70; Some 71; Some 72; Some 73].
+Proof. vm_compute. repeat split; reflexivity. Qed.
